@@ -2,6 +2,7 @@ package sym
 
 import (
 	"go/types"
+	"math/big"
 	"strings"
 
 	"govc/smt"
@@ -100,7 +101,7 @@ func init() {
 	reg(func(c *Call) Val { return c.Args[0] }, "github.com/cosmos/cosmos-sdk/runtime.KVStoreAdapter")
 	reg(func(c *Call) Val {
 		st := c.Ex.asStore(c.Args[0])
-		p := c.Args[1].(*BytesV)
+		p := c.Ex.asBytes(c.Args[1])
 		ns := *st
 		if st.Prefix != nil {
 			ns.Prefix = &BytesV{Tag: "cat", Sub: []*BytesV{st.Prefix, p}}
@@ -111,7 +112,7 @@ func init() {
 	}, "cosmossdk.io/store/prefix.NewStore")
 	get := func(c *Call) Val {
 		st := c.Ex.asStore(c.Args[0])
-		key := c.Args[1].(*BytesV)
+		key := c.Ex.asBytes(c.Args[1])
 		id, ka := tableID(st, key)
 		b := c.Ex.tableGet(st.W, id, ka)
 		if b == nil {
@@ -121,21 +122,21 @@ func init() {
 	}
 	has := func(c *Call) Val {
 		st := c.Ex.asStore(c.Args[0])
-		key := c.Args[1].(*BytesV)
+		key := c.Ex.asBytes(c.Args[1])
 		id, ka := tableID(st, key)
 		return smt.BoolC(c.Ex.tableGet(st.W, id, ka) != nil)
 	}
 	set := func(c *Call) Val {
 		st := c.Ex.asStore(c.Args[0])
-		key := c.Args[1].(*BytesV)
-		val := c.Args[2].(*BytesV)
+		key := c.Ex.asBytes(c.Args[1])
+		val := c.Ex.asBytes(c.Args[2])
 		id, ka := tableID(st, key)
 		c.Ex.tableSet(st.W, id, ka, val)
 		return nil
 	}
 	del := func(c *Call) Val {
 		st := c.Ex.asStore(c.Args[0])
-		key := c.Args[1].(*BytesV)
+		key := c.Ex.asBytes(c.Args[1])
 		id, ka := tableID(st, key)
 		c.Ex.tableSet(st.W, id, ka, nil)
 		return nil
@@ -164,7 +165,7 @@ func init() {
 		return &BytesV{Tag: "marshal", Obj: copyDeep(c.Ex.deepForceShallow(obj))}
 	}
 	unmarshal := func(c *Call) Val {
-		b := c.Args[1].(*BytesV)
+		b := c.Ex.asBytes(c.Args[1])
 		dst := c.Ex.force(c.Args[2])
 		if iv, ok := dst.(*IfaceV); ok {
 			dst = iv.V
@@ -189,10 +190,7 @@ func init() {
 	iter := func(reverse bool) Model {
 		return func(c *Call) Val {
 			st := c.Ex.asStore(c.Args[0])
-			var p *BytesV
-			if b, ok := c.Args[1].(*BytesV); ok {
-				p = b
-			}
+			p := c.Ex.asBytes(c.Args[1])
 			return c.Ex.makeIterator(st, p, reverse, c)
 		}
 	}
@@ -306,6 +304,8 @@ func init() {
 	regInvoke(func(c *Call) Val { return smt.App("modaddr", smt.Addr, t(c, 1)) }, "AccountKeeper.GetModuleAddress")
 }
 
+type bigIntT = big.Int
+
 // writeFn is the closure returned by CacheContext.
 type writeFn struct {
 	Parent, Child *CtxV
@@ -350,4 +350,42 @@ func (ex *Exec) makeIterator(st *StoreV, p *BytesV, reverse bool, c *Call) Val {
 	}
 	idPrefix, _ := tableID(full, nil)
 	return &IterV{ID: ex.site("iter!" + idPrefix)}
+}
+
+// asBytes views a byte-slice value (symbolic bytes, or a literal []byte{...}) as BytesV.
+func (ex *Exec) asBytes(v Val) *BytesV {
+	v = ex.force(v)
+	switch b := v.(type) {
+	case *BytesV:
+		return b
+	case *NilV:
+		return &BytesV{Nil: true}
+	case *SliceV:
+		if b.Arr == nil {
+			return &BytesV{Nil: true}
+		}
+		var sb strings.Builder
+		sb.WriteString("lit:")
+		for i := 0; i < b.Len; i++ {
+			t, ok := ex.force(b.Arr.Elems[b.Off+i].V).(*smt.Term)
+			c, isC := (*bigIntT)(nil), false
+			if ok {
+				if ci, ok2 := t.ConstInt(); ok2 {
+					c, isC = ci, true
+				}
+			}
+			if !isC {
+				ex.abort("byte slice with symbolic elements")
+			}
+			sb.WriteString(c.Text(16))
+			sb.WriteString(".")
+		}
+		return &BytesV{Tag: sb.String()}
+	case *LazyV:
+		if isByteSlice(b.T) {
+			return ex.force(b).(*BytesV)
+		}
+	}
+	ex.abort("expected bytes, got %T", v)
+	return nil
 }
